@@ -46,21 +46,30 @@ theorem fromSlice_checks (ok : Bytes → Option Bool) (bs : Bytes)
   Kitoken.Proofs.Codec.fromSlice_checks ok bs h
 
 /-- Exporting the definition of a tokenizer built from a canonically ordered definition returns that
-    definition, whatever order the hash maps iterate in (`pv`, `pvs`, `ps` are arbitrary reorderings). -/
+    definition, whatever order the hash maps iterate in (`pv`, `pvs` are arbitrary reorderings). -/
 theorem export_canonical (d : Definition) (hc : Canonical d)
     (pv : List (Id × Bytes) → List (Id × Bytes)) (hpv : ∀ l, (pv l).Perm l)
-    (pvs : List ((Id × Bytes) × UInt32) → List ((Id × Bytes) × UInt32)) (hpvs : ∀ l, (pvs l).Perm l)
-    (ps : List SpecialDef → List SpecialDef) (hps : ∀ l, (ps l).Perm l) :
-    exportDefinition d pv pvs ps = .ok d :=
-  Kitoken.Proofs.Codec.export_canonical d hc pv hpv pvs hpvs ps hps
+    (pvs : List ((Id × Bytes) × UInt32) → List ((Id × Bytes) × UInt32)) (hpvs : ∀ l, (pvs l).Perm l) :
+    exportDefinition d pv pvs = .ok d :=
+  Kitoken.Proofs.Codec.export_canonical d hc pv hpv pvs hpvs
 
 /-- The export does not depend on hash iteration order when the sort keys are total on the entries
     (used by C19): two arbitrary reorderings give the same result for a canonical definition. -/
 theorem export_order_independent (d : Definition) (hc : Canonical d)
     (pv pv' : List (Id × Bytes) → List (Id × Bytes)) (hpv : ∀ l, (pv l).Perm l) (hpv' : ∀ l, (pv' l).Perm l)
-    (pvs pvs' : List ((Id × Bytes) × UInt32) → List ((Id × Bytes) × UInt32)) (hpvs : ∀ l, (pvs l).Perm l) (hpvs' : ∀ l, (pvs' l).Perm l)
-    (ps ps' : List SpecialDef → List SpecialDef) (hps : ∀ l, (ps l).Perm l) (hps' : ∀ l, (ps' l).Perm l) :
-    exportDefinition d pv pvs ps = exportDefinition d pv' pvs' ps' := by
-  rw [export_canonical d hc pv hpv pvs hpvs ps hps, export_canonical d hc pv' hpv' pvs' hpvs' ps' hps']
+    (pvs pvs' : List ((Id × Bytes) × UInt32) → List ((Id × Bytes) × UInt32)) (hpvs : ∀ l, (pvs l).Perm l) (hpvs' : ∀ l, (pvs' l).Perm l) :
+    exportDefinition d pv pvs = exportDefinition d pv' pvs' := by
+  rw [export_canonical d hc pv hpv pvs hpvs, export_canonical d hc pv' hpv' pvs' hpvs']
+
+/-- "A tokenizer rebuilt from its own exported definition encodes like the original", the part that the F25 repair
+    restored: for EVERY definition — also one whose specials are not listed in the order `specialLe` would give
+    them — the export returns the specials in the listed order (which is the split priority and decides which
+    unknown-kind special the encoders use), with the same configuration and metadata. -/
+theorem export_keeps_specials (d d' : Definition)
+    (pv : List (Id × Bytes) → List (Id × Bytes))
+    (pvs : List ((Id × Bytes) × UInt32) → List ((Id × Bytes) × UInt32))
+    (h : exportDefinition d pv pvs = .ok d') :
+    d'.specials = d.specials ∧ d'.config = d.config ∧ d'.metadata = d.metadata :=
+  Kitoken.Proofs.Codec.export_keeps_specials d d' pv pvs h
 
 end Kitoken.C14
